@@ -92,8 +92,10 @@ claimed["C03"] = dict(
          "symbolic path), every object reachable from it is frozen in the executor, then every single later write of the "
          "op/pattern pool (direct, new txn, same txn; commit or abort) is executed and the snapshot is re-observed: equal "
          "observations, no value-changing store into a frozen object on any path, and the writer's own view equals the map "
-         "model. Sequential half only; see level_note.",
-    design="5 C03", technique="bounded symbolic execution of go/ssa + SMT with a frozen-object monitor; differential before/after observation")
+         "model. The concurrent half is two thread programs (one published state per request / reader under every explored "
+         "schedule) plus the frozen-object argument; see level_note.",
+    design="5 C03", technique="bounded symbolic execution of go/ssa + SMT with a frozen-object monitor; differential before/after observation; two thread programs under the schedule explorer",
+    note="Concurrent readers are covered by the argument that no store reaches a frozen object on any path, plus two thread programs (request vs a transaction moving a route between methods; reader vs a two-route transaction); other concurrent schedules are C05's obligation.")
 claimed["C04"] = dict(
     text="Bounded symbolic execution of the real Txn/Updates code: for every transaction of k writes from the pool and each of "
          "five endings (Commit, Abort, managed commit, error after j ops, panic after j ops with j solver-chosen) the txn "
